@@ -20,6 +20,7 @@ def c01(ctx):
     from .c12 import units_rule
     units_rule(ctx, "C01.R2")
     progress_rules(ctx)
+    dispatch_char_rule(ctx, "C01.R5")
 
 
 def progress_rules(ctx):
@@ -58,3 +59,43 @@ def progress_rules(ctx):
     rep.ob("C01.R4", "recursion::acyclic-after-removing-guarded-edges", not cycles, "" if not cycles else "%d unguarded recursion cycles" % len(seen), None,
            how="%d of %d call edges are guarded by consumption; the rest form a DAG" % (n_guarded, n_edges))
     no_statement_rule(ctx, "C01.R4")
+
+
+
+def dispatch_char_rule(ctx, rule):
+    """the widths the lexer adds to a start offset (`start + 1` for a one-character token) are the widths of the characters it
+    dispatched on -- provided the character dispatched on *is* the character at that offset"""
+    from ..flow import origins
+    F, rep = ctx.F, ctx.rep
+    rep.rule(rule, "the character the lexer dispatches on is the character at the start offset: find_word_start hands on the (offset, "
+             "character) pair it drew from the character iterator -- a pair it builds itself must take both components from one and "
+             "the same drawn pair, never a substituted character (a 3-byte separator dispatched as '\\n' is sliced as one byte)")
+    fw = F.fn("frontend::lexer::find_word_start")
+    if fw is None:
+        rep.fail(rule, "anchor", "frontend::lexer::find_word_start not found")
+        return
+    rep.analysed(fw)
+    n = 0
+    bad = None
+    for body in F.with_closures(fw):
+        for bi, si, st in body.assigns():
+            if st["rv"].get("agg") != "tuple" or len(st["rv"].get("ops", [])) != 2:
+                continue
+            ty = body.local_ty(st["pl"]["l"]).s if not st["pl"]["p"] else ""
+            if ty != "(usize, char)":
+                continue
+            n += 1
+            roots = []
+            for o in st["rv"]["ops"]:
+                src = set(origins(body, o))
+                roots.append(src)
+            # both components are projections .0 / .1 of the same source value, nothing else
+            def proj(src, f):
+                return {(d, p[:-1]) for d, p in src if p and str(p[-1]) == f}
+            a, b = proj(roots[0], "0"), proj(roots[1], "1")
+            if not (a and a == b and len(roots[0]) == len(a) and len(roots[1]) == len(b)):
+                bad = (body, st)
+    ok = bad is None
+    rep.ob(rule, "dispatch-on-the-character-at-the-offset", ok,
+           "" if ok else "find_word_start builds an (offset, character) pair whose character is not the one drawn together with the offset: the lexer dispatches on a character that is not the one in the text",
+           (bad[0].loc(bad[1].get("line")) if bad else fw.loc()), how="%d rebuilt pairs, all component-wise copies" % n)
